@@ -4,6 +4,7 @@ mod c05;
 mod c06;
 mod c09;
 mod c11;
+mod c12;
 mod c15;
 mod c16;
 mod cbackend;
@@ -129,6 +130,8 @@ fn main() {
         ("run", "C10") => cbackend::run(&mut ctx, cbackend::Focus::C10),
         ("run", "C14") => cbackend::run(&mut ctx, cbackend::Focus::C14),
         ("run", "C01") => c01::run(&mut ctx),
+        ("run", "C12") => c12::run(&mut ctx, "C12"),
+        ("run", "C19") => c12::run(&mut ctx, "C19"),
         ("run", "C13") => cfront::run(&mut ctx, cfront::Focus::C13),
         ("run", "C17") => cfront::run(&mut ctx, cfront::Focus::C17),
         ("run", "C18") => cfront::run(&mut ctx, cfront::Focus::C18),
@@ -172,7 +175,11 @@ fn main() {
             return;
         }
         ("extract", _) => {
-            // translators: none registered yet
+            // translators: the grammar file -> coq/gen/Grammar.v
+            if let Err(e) = c12::extract(&ctx.out) {
+                eprintln!("extract failed: {}", e);
+                std::process::exit(1);
+            }
             return;
         }
         _ => {
